@@ -26,6 +26,11 @@ OUTCOMES = {
 NAMES = sorted(OUTCOMES)
 
 
+# the ways a caller can start a request and hand over a trace context
+ENTRIES = {'single': ['send', 'call', '__call__', 'proxy'], 'notification': ['send', 'notify'],
+           'batch': ['send', 'batch.call', 'batch.proxy()', 'batch.proxy.call']}
+
+
 def strategy_for(n: int) -> Dict[str, Any]:
     return {'attempts': n, 'codes': [LISTED], 'exceptions': ['ExcE'], 'backoff': {'kind': 'periodic', 'interval': 0.5}, 'jitter': []}
 
@@ -39,7 +44,7 @@ class C19(Check):
         "cases: per-attempt outcome words over {response ok, response with listed / unlisted error code, listed / unlisted transport exception, "
         "body that is not JSON, body that is not a response (object / scalar), identity mismatch, BaseException (harness BaseException subclass; "
         "asyncio.CancelledError on the async side)} - all words of length n+1 for retry strategies of n = 0..2 attempts (enumerated, both tiers; "
-        "n = 3 in thorough) x 0..3 tracers x single / batch / notification x caller-supplied vs default trace context x sync / async (rotating); "
+        "n = 3 in thorough) x 0..3 tracers x single / batch / notification x entry point {send with a hand-built request, call, __call__, proxy attribute, notify, batch.send, batch.add().call(), batch.proxy...(), batch.proxy....call()} x caller-supplied vs default trace context x sync / async (rotating); "
         "plus Hypothesis-drawn configurations. Oracle: the event log is, per attempt, begin by every tracer in configuration order, then "
         "exactly one completion by every tracer in order - end with the returned response object (None for notifications) or error with "
         "the raised exception (identity) - begin and completion of one attempt carry the same context object (the caller's when supplied, "
@@ -53,7 +58,8 @@ class C19(Check):
     trusted_base = ['retry model in pbt/clientharness.py']
     required_classes = ['tracers/0', 'tracers/1', 'tracers/2', 'tracers/3', 'ctx/caller', 'ctx/default', 'kind/single', 'kind/batch',
                         'kind/notification', 'client/sync', 'client/async', 'attempts>=2', 'outcome/base-exc', 'outcome/identity',
-                        'outcome/not-json', 'outcome/not-response']
+                        'outcome/not-json', 'outcome/not-response', 'entry/send', 'entry/call', 'entry/proxy', 'entry/notify',
+                        'entry/batch.call', 'entry/batch.proxy()', 'entry/batch.proxy.call']
 
     def _words(self, maxn: int, shard: int = 0, nshards: int = 1):
         i = 0
@@ -63,9 +69,10 @@ class C19(Check):
                     i += 1
                     if i % nshards != shard:
                         continue
-                    yield {'client': client, 'request': ['single', 'batch', 'notification'][i % 3], 'tracers': (i // 3) % 4,
+                    rk = ['single', 'batch', 'notification'][i % 3]
+                    yield {'client': client, 'request': rk, 'tracers': (i // 3) % 4,
                            'ctx': ['caller', 'default'][(i // 12) % 2], 'strategy': strategy_for(n) if n or i % 5 else None,
-                           'outcomes': list(word)}
+                           'outcomes': list(word), 'entry': ENTRIES[rk][(i // 7) % len(ENTRIES[rk])]}
 
     def enumerate(self, tier: str):
         return self._words(2) if tier == 'quick' else None
@@ -82,9 +89,11 @@ class C19(Check):
 
     def strategy(self, tier: str):
         return st.builds(
-            lambda c, r, t, x, n, o: {'client': c, 'request': r, 'tracers': t, 'ctx': x, 'strategy': strategy_for(n) if n is not None else None, 'outcomes': o},
+            lambda c, r, t, x, n, o, e: {'client': c, 'request': r, 'tracers': t, 'ctx': x, 'strategy': strategy_for(n) if n is not None else None, 'outcomes': o,
+                                         'entry': ENTRIES[r][e % len(ENTRIES[r])]},
             st.sampled_from(['sync', 'async']), st.sampled_from(['single', 'batch', 'notification']), st.integers(0, 3),
             st.sampled_from(['caller', 'default']), st.sampled_from([None, 0, 1, 2, 3]), st.lists(st.sampled_from(NAMES), min_size=4, max_size=4),
+            st.integers(0, 11),
         )
 
     def run_case(self, spec: Any) -> Outcome:
@@ -135,12 +144,37 @@ class C19(Check):
             kwargs['retry_strategy'] = ch.build_strategy(s)
         client = ch.make_client(kind, transport, **kwargs)
         caller_ctx = SimpleNamespace(tag='caller') if spec['ctx'] == 'caller' else None
+        entry = spec.get('entry', 'send')
+        if entry not in ENTRIES[rkind]:
+            entry = 'send'
+        req: Any = None      # known only when the caller builds the request object itself
         if rkind == 'batch':
-            req: Any = pjrpc.BatchRequest(pjrpc.Request('m', [1], id=1), pjrpc.Request('n', [2], id=2), pjrpc.Request('note', [3]))
-            fn = lambda: client.batch.send(req, _trace_ctx=caller_ctx)  # noqa: E731
+            if entry == 'send':
+                req = pjrpc.BatchRequest(pjrpc.Request('m', [1], id=1), pjrpc.Request('n', [2], id=2), pjrpc.Request('note', [3]))
+                fn = lambda: client.batch.send(req, _trace_ctx=caller_ctx)  # noqa: E731
+            elif entry == 'batch.call':
+                fn = lambda: client.batch.add('m', 1).add('n', 2).notify('note', 3).call(_trace_ctx=caller_ctx)  # noqa: E731
+            elif entry == 'batch.proxy()':
+                fn = lambda: client.batch.proxy.m(1).n(2)(_trace_ctx=caller_ctx)  # noqa: E731
+            else:
+                fn = lambda: client.batch.proxy.m(1).n(2).call(_trace_ctx=caller_ctx)  # noqa: E731
+        elif rkind == 'notification':
+            if entry == 'send':
+                req = pjrpc.Request('m', [1], id=None)
+                fn = lambda: client.send(req, _trace_ctx=caller_ctx)  # noqa: E731
+            else:
+                fn = lambda: client.notify('m', 1, _trace_ctx=caller_ctx)  # noqa: E731
         else:
-            req = pjrpc.Request('m', [1], id=None if rkind == 'notification' else 1)
-            fn = lambda: client.send(req, _trace_ctx=caller_ctx)  # noqa: E731
+            if entry == 'send':
+                req = pjrpc.Request('m', [1], id=1)
+                fn = lambda: client.send(req, _trace_ctx=caller_ctx)  # noqa: E731
+            elif entry == 'call':
+                fn = lambda: client.call('m', 1, _trace_ctx=caller_ctx)  # noqa: E731
+            elif entry == '__call__':
+                fn = lambda: client('m', 1, _trace_ctx=caller_ctx)  # noqa: E731
+            else:
+                fn = lambda: client.proxy.m(1, _trace_ctx=caller_ctx)  # noqa: E731
+        unwraps = entry not in ('send',)      # these notations hand the caller the result (or raise the error), not the response object
 
         with ch.captured_sleeps():
             try:
@@ -149,7 +183,7 @@ class C19(Check):
                 value, exc = None, e
 
         discs: List[Disc] = []
-        where = f"client={kind} request={rkind} tracers={spec['tracers']} ctx={spec['ctx']} attempts={s['attempts'] if s else None} outcomes={names}"
+        where = f"client={kind} request={rkind} entry={entry} tracers={spec['tracers']} ctx={spec['ctx']} attempts={s['attempts'] if s else None} outcomes={names}"
         T = spec['tracers']
         n_sent = len(client.sent)
         if n_sent != sends:
@@ -181,7 +215,9 @@ class C19(Check):
                     discs.append(Disc("C19/context-differs-within-attempt", f"attempt {k} | {where}"))
                 if caller_ctx is not None and any(e[3] is not caller_ctx for e in block):
                     discs.append(Disc("C19/caller-context-not-used", f"attempt {k} | {where}"))
-                if any(e[4] is not req for e in block):
+                if caller_ctx is None and any(e[3] is None for e in block):
+                    discs.append(Disc("C19/no-trace-context", f"attempt {k}: tracers received None instead of a per-request trace context | {where}"))
+                if (req is not None and any(e[4] is not req for e in block)) or any(e[4] is not block[0][4] for e in block) or any(e[4] is not log[0][4] for e in block):
                     discs.append(Disc("C19/request-object", f"attempt {k} | {where}"))
                 for e in block[T:]:
                     if want_kind == 'error':
@@ -193,12 +229,16 @@ class C19(Check):
                         if rkind == 'notification':
                             if e[5] is not None:
                                 discs.append(Disc("C19/end-event-for-notification-carries-response", f"{e[5]!r} | {where}"))
-                        elif k == n_sent - 1 and e[5] is not value:
+                        elif k == n_sent - 1 and not unwraps and e[5] is not value:
                             discs.append(Disc("C19/end-event-carries-other-response", f"caller {value!r}, tracer {e[5]!r} | {where}"))
         final = outcomes[min(final_idx, len(outcomes) - 1)]
         if n_sent == sends:
             if final['kind'] in ('ok', 'code'):
-                if exc is not None:
+                if unwraps and final['kind'] == 'code' and rkind != 'notification':
+                    # call / proxy notations raise the error the (returned, traced as 'end') response carries
+                    if not isinstance(exc, pjrpc.exc.JsonRpcError) or exc.code != final['code']:
+                        discs.append(Disc("C19/error-response-not-raised-by-call-notation", f"caller got {value!r} / {exc!r} | {where}"))
+                elif exc is not None:
                     discs.append(Disc(f"C19/unexpected-exception/{type(exc).__name__}", f"{exc!r} | {where}"))
             else:
                 if exc is None:
@@ -206,7 +246,7 @@ class C19(Check):
                 elif final_idx in raised and exc is not raised[final_idx]:
                     discs.append(Disc("C19/exception-changed", f"caller {exc!r} raised {raised[final_idx]!r} | {where}"))
         # a second request through the SAME client: a default trace context belongs to one request only
-        if T >= 1 and caller_ctx is None and not discs:
+        if T >= 1 and caller_ctx is None and not discs and log and all(e[3] is not None for e in log):
             first_ctx_ids = {e[2] for e in log}
             for e in log:
                 setattr(e[3], 'mark_left_by_first_request', True)     # what a tracer typically does: keep state on the context
@@ -220,7 +260,7 @@ class C19(Check):
             if second:
                 if any(getattr(e[3], 'mark_left_by_first_request', False) for e in second) or ({e[2] for e in second} & first_ctx_ids):
                     discs.append(Disc("C19/default-context-shared-between-requests", f"the second request's tracer events carry a context of the first request | {where}"))
-        classes = [f"tracers/{T}", f"ctx/{spec['ctx']}", f"kind/{rkind}", f"client/{kind}"]
+        classes = [f"tracers/{T}", f"ctx/{spec['ctx']}", f"kind/{rkind}", f"client/{kind}", f"entry/{entry}"]
         if n_sent >= 2:
             classes.append('attempts>=2')
         used = names[:max(n_sent, 1)]
